@@ -18,26 +18,30 @@ import (
 const modulePath = "github.com/quickfixgo/quickfix"
 
 type Engine struct {
-	repo       string
-	verifDir   string
-	fset       *token.FileSet
-	prog       *ssa.Program
-	pkgs       []*ssa.Package
-	tpkgs      map[string]*types.Package // by path
-	cs         *ContractSet
-	effCache   map[*ssa.Function]map[string]bool
-	effBusy    map[*ssa.Function]bool
-	fieldHeaps []string
-	heapDescs  map[string]heapDesc
-	srcCache   map[string][]string
-	funcsByKey map[string]*ssa.Function // pkgpath::key
-	loadErrs   []string
+	repo        string
+	verifDir    string
+	fset        *token.FileSet
+	prog        *ssa.Program
+	pkgs        []*ssa.Package
+	tpkgs       map[string]*types.Package // by path
+	cs          *ContractSet
+	effCache    map[*ssa.Function]map[string]bool
+	effBusy     map[*ssa.Function]bool
+	fieldHeaps  []string
+	heapDescs   map[string]heapDesc
+	nfCache     map[*ssa.Function]map[string]bool
+	nfBusy      map[*ssa.Function]bool
+	nfRecursed  bool
+	effRecursed bool
+	srcCache    map[string][]string
+	funcsByKey  map[string]*ssa.Function // pkgpath::key
+	loadErrs    []string
 }
 
 var loadPatterns = []string{".", "./internal", "./datadictionary", "./store/file", "./store/sql"}
 
 func LoadEngine(repo, verifDir string) (*Engine, error) {
-	eng := &Engine{repo: repo, verifDir: verifDir, effCache: map[*ssa.Function]map[string]bool{}, effBusy: map[*ssa.Function]bool{}, srcCache: map[string][]string{}, tpkgs: map[string]*types.Package{}, funcsByKey: map[string]*ssa.Function{}, heapDescs: map[string]heapDesc{}}
+	eng := &Engine{repo: repo, verifDir: verifDir, effCache: map[*ssa.Function]map[string]bool{}, effBusy: map[*ssa.Function]bool{}, srcCache: map[string][]string{}, tpkgs: map[string]*types.Package{}, funcsByKey: map[string]*ssa.Function{}, heapDescs: map[string]heapDesc{}, nfCache: map[*ssa.Function]map[string]bool{}, nfBusy: map[*ssa.Function]bool{}}
 	cfg := &packages.Config{Mode: packages.LoadAllSyntax, Dir: repo, BuildFlags: []string{"-tags=verif"},
 		Env: append(os.Environ(), "GOFLAGS=-mod=mod", "GOPROXY=off", "GOSUMDB=off", "GOTOOLCHAIN=local")}
 	pkgs, err := packages.Load(cfg, loadPatterns...)
@@ -355,11 +359,16 @@ func (eng *Engine) buildVCq(fn *ssa.Function, ct *Contract, qf int) (vc *VC, err
 				eff := eng.contractEffects(ct, fn, fn.Signature)
 				actual := eng.bodyEffects(fn)
 				if !eff["*"] {
-					if actual["*"] && ri == 0 {
+					if vc.didHavocAll && ri == 0 {
 						o := f.obligeAt("true", "frame", "unknown-callee-effects", nil, "false", fn.Pos())
 						o.Src = "the body calls code with unknown effects (interface method or function value without contract) but the modifies clause does not say '*'"
 					}
-					for _, fm := range f.frameConds(ct, f.specEnv(f.entry), f.entry, r.st, union(eff, actual)) {
+					delete(actual, "*")
+					known := map[string]bool{}
+					for h := range vc.heapSort {
+						known[h] = true
+					}
+					for _, fm := range f.frameConds(ct, f.specEnv(f.entry), f.entry, r.st, union(union(eff, actual), known)) {
 						o := f.obligeAt(r.R, "frame", fm.heap+tag, nil, fm.formula, r.pos)
 						o.Src = "only the objects listed in the modifies clause (or allocated during the call) change in heap " + fm.heap
 					}
